@@ -46,7 +46,8 @@ REQUIRED = ["transform_calls", "rotations_checked", "scales_checked", "translati
             "centre_root_far", "centre_origin", "root_not_at_position_0", "instance_reused",
             "inverse_checked", "isometry_checked", "builders_checked", "composed_checked",
             "classmethod_checked", "translate_origin_checked", "singular_scalings", "tap_apply",
-            "edited_in_place_then_transformed"]
+            "edited_in_place_then_transformed", "integer_matrices",
+            "builder_results_edited_then_rebuilt"]
 FLOOR = {"quick": 1200, "thorough": 25000}
 SHARDS = {"quick": 8, "thorough": 16}
 TOL = 3e-5
@@ -100,6 +101,8 @@ def make(t, center):
     if k == "affine":
         # the caller's own matrix, float32 or float64; it must come back untouched
         m = np.array(t["m"], dtype=np.float64 if t.get("m64") else np.float32)
+        if t.get("mint"):  # an integer-valued map typed in as integers
+            m = np.array(t["m"], dtype=np.int64 if t["mint"] == "int64" else np.int32)
         tf = AffineTransform(m, **kw)
         tf._rv_matrix, tf._rv_matrix_copy = m, m.copy()
         return tf
@@ -217,6 +220,8 @@ def _exec(ctx, case):
     c0 = xyz64(trees[0])[int(np.nonzero(trees[0].pid() == -1)[0][0])]
     ctx.count("centre_origin" if eff == "origin" else
               ("centre_root_far" if np.abs(c0).max() > 50 else "centre_root_near"))
+    if t.get("mint"):
+        ctx.count("integer_matrices")
     ctx.count({"translate": "translations_checked", "scale": "scales_checked"}.get(
         t["kind"], "rotations_checked" if t["kind"] != "affine" else "affine_checked"))
     fps = [contracts.fingerprint(tr) for tr in trees]
@@ -337,6 +342,21 @@ def check_builders(ctx, case):
         ("scale3d", scale3d(*s), np.diag(s), np.zeros(3)),
         ("translate3d", translate3d(*tv), np.eye(3), np.array(tv)),
     ]
+    again = {"rotate3d_x": lambda: rotate3d_x(th), "rotate3d_y": lambda: rotate3d_y(th),
+             "rotate3d_z": lambda: rotate3d_z(th), "rotate3d": lambda: rotate3d(np.array(n), th),
+             "rotate3d(list)": lambda: rotate3d(list(n), th), "scale3d": lambda: scale3d(*s),
+             "translate3d": lambda: translate3d(*tv)}
+    for name, got, A, b in list(pairs):
+        # the returned matrix is the caller's: editing it (assembling a composite motion in place)
+        # must not change what the builder returns for the same arguments next time
+        if isinstance(got, np.ndarray) and got.flags.writeable:
+            got_copy = got.copy()
+            got[:3, 3] = 25.0
+            got[:3, :3] *= 1.5
+            pairs.append((name + " (again, after the first result was edited)",
+                          np.array(again[name](), copy=True), A, b))
+            got[...] = got_copy
+            ctx.count("builder_results_edited_then_rebuilt")
     for name, got, A, b in pairs:
         got = np.asarray(got)
         if got.shape != (4, 4):
@@ -394,6 +414,17 @@ def draw_transform(rng):
                                                   [0, -1., 0]][int(rng.integers(0, 4))]
         return {"kind": k, "n": n, "theta": th, "n32": bool(rng.random() < 0.3),
                 "nlist": bool(rng.random() < 0.2)}
+    if k == "affine" and rng.random() < 0.3:
+        # axis swaps, mirrors, quarter turns, integer stretches: an integer matrix
+        perm = rng.permutation(3)
+        m = np.zeros((4, 4))
+        for i_ in range(3):
+            m[i_, perm[i_]] = float(rng.choice([-1, 1, 1, 2]))
+        m[3, 3] = 1.0
+        if rng.random() < 0.4:
+            m[:3, 3] = rng.integers(-9, 10, 3)
+        return {"kind": k, "m": m.tolist(), "m64": True,
+                "mint": str(rng.choice(["int64", "int32"]))}
     if k == "affine":
         m = np.eye(4)
         m[:3, :3] = rodrigues(unit(rng), th) @ np.diag(np.exp(rng.normal(0, .4, 3)))
